@@ -46,6 +46,16 @@ CLAIMS = {
         "Exploration: 800 (quick) / 15k (thorough) generated expressions over the builtin models incl. zero components, dispersed leaves, oriented and magnetic leaves in 2-D; one defect repaired (zero factor), three listed findings keyed by input class.",
         "Assumes leaves alone are evaluated correctly (C01/C07); leaves costing >5 ms per evaluation are excluded from the pool (recorded).",
         "DESIGN.md section 3 C08"),
+    "C10": (
+        "Hypothesis-generated requests rendered through four calling interfaces; oracle = differential between DirectModel, Iq/Iqxy, the SasView-style object (incl. multiplicity, array distributions, clone) and the bumps wrapper (stub bumps.parameter), an independently computed selection index, and refusal predicates for generated misspelt names",
+        "Exploration: all 78 models x 16 (quick) / 320 (thorough) generated (parameters, dispersity in both naming schemes, data object with mask/q-limits/NaN, unknown-name) cases at 1e-12.",
+        "Default cutoff 1e-5 and double-precision DLL kernels in every interface; the SasView-style object is compared on un-smeared q only; slow models get a reduced case count.",
+        "DESIGN.md section 3 C10"),
+    "C11": (
+        "generated operation histories (5-40 steps over a deterministic request universe of 7 models incl. Python, P@S, mixture, vector models) executed in one fresh driver process; oracle = history invariant: every result bit-identical to the same request as the only step of a fresh process, caller's dicts/arrays unchanged",
+        "Exploration: 160 (quick) / 4000 (thorough) histories, each compared step by step with fresh-process oracles (cached per worker); one defect repaired (call_Fq popped the mode from the caller's dict).",
+        "The one-step history through the same driver is taken as 'first in a fresh process'; all processes of a worker share one compiled-library cache; SasView-style requests assign every parameter they depend on.",
+        "DESIGN.md section 3 C11"),
     "C13": (
         "Hypothesis-generated parameter sets (model random() by drawn seed, defaults, coincidence-breaking perturbations) with metamorphic relations of known effect: lambda^3 / lambda / mu^2 scaling by declared unit exponents",
         "Exploration: every eligible shape:* model (42) x 40 (quick) / 800 (thorough) cases; relations on I, R_eff per mode, V_form, V_shell; three wrong unit labels repaired, five model-level deviations listed per (model, relation).",
